@@ -134,6 +134,38 @@ Definition find (c : cal) (j : journal) (after before limit : option Z) (succeed
       end
   end.
 
+(* ---- fe/api/__init__.py: df_model_statistics(node) once the node is neither
+   executing nor pending: the failed, then the succeeded entries completed
+   since boot_time whose task is the node; of those, the run with the highest
+   id; its most recent completion time and whether that run failed (1),
+   succeeded (0) or both (2).  None = one of the two find calls did not
+   return a list. ---- *)
+Inductive stat := NoStat | Stat (date runid status : Z).
+Definition of_task (task : Z) (l : list entry) : list entry :=
+  filter (fun e => e_task e =? task) l.
+Definition of_run (rid : Z) (l : list entry) : list entry :=
+  filter (fun e => e_runid e =? rid) l.
+Definition stats (c : cal) (j : journal) (boot now task : Z) : option stat :=
+  match find c j (Some boot) None None false now, find c j (Some boot) None None true now with
+  | Ok fl, Ok sl =>
+      let mf := of_task task fl in
+      let msu := of_task task sl in
+      match mf ++ msu with
+      | [] => Some NoStat
+      | e0 :: rest =>
+          let rid := fold_left Z.max (map e_runid rest) (e_runid e0) in
+          let f' := of_run rid mf in
+          let s' := of_run rid msu in
+          let status := match f', s' with [], _ => 0 | _, [] => 1 | _, _ => 2 end in
+          match f' ++ s' with
+          | [] => None
+          | m0 :: mr =>
+              Some (Stat (fold_left Z.max (map e_completed mr) (e_completed m0)) rid status)
+          end
+      end
+  | _, _ => None
+  end.
+
 (* ---- the Gregorian instance (days since 1980-01-01) ---- *)
 (* civil_from_days / days_from_civil (H. Hinnant), z = days since 1970-01-01 *)
 Definition civil (z : Z) : Z * Z * Z :=
@@ -189,6 +221,10 @@ Definition ids (r : result) : list Z := match r with Ok l => map e_id l | _ => [
 Example find_window_ex :
   ids (find greg ex_journal (Some (tick 2026 1 9 10 0)) (Some (tick 2026 1 10 9 0)) None true 0) = [2; 1].
 Proof. vm_compute. reflexivity. Qed.
+Example stats_ex :
+  stats greg ex_journal (tick 2026 1 1 0 0) (tick 2026 2 1 0 0) 0 = Some (Stat (tick 2026 1 9 9 0) 3 0)
+  /\ stats greg ex_journal (tick 2026 1 1 0 0) (tick 2026 2 1 0 0) 7 = Some NoStat.
+Proof. vm_compute. split; reflexivity. Qed.
 Example find_before_ex :
   ids (find greg ex_journal None (Some (tick 2026 1 10 9 0)) (Some 3) true 0) = [2; 1; 3]
   /\ ids (find greg ex_journal None None (Some 10) true (tick 2026 2 1 0 0)) = [2; 1; 3; 4].
